@@ -37,6 +37,7 @@ func scopeStr(s defn.Scope) string {
 }
 
 func TestFaceScope(t *testing.T) {
+	defer watchDriver("TestFaceScope")()
 	cfg := core.DefaultConfig()
 	cfg.Core.LogLevel = "FATAL"
 	core.LoadConfig(cfg, "")
